@@ -1,7 +1,7 @@
 (* Proofs/PatternFixpoint.v -- C10: unvisit is defined on every printable object
    of the visitor's shape; print_fixpoint and programmatic_roundtrip.          *)
 From Coq Require Import NArith ZArith List String Bool Lia.
-From V Require Import Model.PatternSyntax Proofs.PatternNumbers Proofs.PatternLit Proofs.PatternPath
+From V Require Import Model.PatternSyntax Spec.PatternSpec Proofs.PatternR Proofs.PatternNumbers Proofs.PatternLit Proofs.PatternPath
   Proofs.PatternCmp Proofs.PatternObs Proofs.PatternEscape Proofs.PatternTokens Proofs.PatternMeaning
   Proofs.PatternUnvConst Proofs.PatternUnvPath Proofs.PatternUnvExpr Proofs.PatternRange.
 Import ListNotations.
@@ -14,7 +14,7 @@ Proof.
   intros cls lhs rhs neg V A. cbn [vexpr aprint] in V, A.
   apply andb_true_iff in V, A. destruct V as [Vp Vr]. destruct A as [Ap Ar].
   destruct (unv_path_ok lhs Ap) as [op [Eo _]].
-  cbn [unv]. unfold unv_cmp. rewrite Eo.
+  cbn [PatternSyntax.unv]. unfold PatternSyntax.unv_cmp. rewrite Eo.
   destruct cls; destruct rhs as [v q|t|z|f|b|v|v|l]; cbn [rhs_ok vrhs] in Ar, Vr; try discriminate Vr; try discriminate Ar;
     try (rewrite (toks_of_consts_ok l Ar); eexists; reflexivity).
   all: match goal with |- context [tok_of_const ?c] =>
@@ -74,7 +74,7 @@ Proof.
   apply andb_true_iff in Vx. destruct Vx as [V1 Vx]. apply andb_true_iff in Vx. destruct Vx as [Vx2 Vxs].
   apply andb_true_iff in Vl. destruct Vl as [L1 Vl]. apply andb_true_iff in Vl. destruct Vl as [L2 Ls].
   apply andb_true_iff in A. destruct A as [A1 A]. apply andb_true_iff in A. destruct A as [A2 As].
-  cbn [unv map]. destruct isand.
+  cbn [PatternSyntax.unv map]. destruct isand.
   - destruct (total_pt x1 H1 V1 A1 L1) as [p1 U1]. destruct (total_pt x2 H2 Vx2 A2 L2) as [p2 U2].
     rewrite U1, U2. cbn [as_cmp lift_and chain_and lift_pt].
     destruct (chain_and_total xs (CAnd (CAndBase p1) p2) HFs Vxs As Ls) as [r C]. rewrite C. eexists; reflexivity.
@@ -102,7 +102,7 @@ Proof.
   assert (Cx : is_cmp_level (level x) = false) by (destruct op; destruct (level x); try discriminate Ll; reflexivity).
   assert (Cy : is_cmp_level (level y) = false) by (destruct op; destruct (level y); try discriminate Lr; reflexivity).
   destruct (total_obs_level x Hx Vx Ax Cx) as [ox [Ux Lx]]. destruct (total_obs_level y Hy Vy Ay Cy) as [oy [Uy Ly]].
-  cbn [unv map]. rewrite Ux, Uy. cbn [as_obs].
+  cbn [PatternSyntax.unv map]. rewrite Ux, Uy. cbn [as_obs].
   rewrite <- Lx in Ll. rewrite <- Ly in Lr.
   destruct op; destruct ox as [ox|ox|ox|ox]; try discriminate Ll; destruct oy as [oy|oy|oy|oy]; try discriminate Lr;
     cbn [lift_oand lift_oor lift_fb lift_obs chain_oand chain_oor chain_fb]; eexists; reflexivity.
@@ -110,7 +110,7 @@ Qed.
 
 Lemma unv_qual_total : forall q, aqual_ok q = true -> exists q', unv_qual q = Some q'.
 Proof.
-  intros [c|c|a b] H; cbn [aqual_ok unv_qual] in *.
+  intros [c|c|a b] H; cbn [aqual_ok PatternSyntax.unv_qual] in *.
   - destruct c; try discriminate H. rewrite (tok_of_const_leaf (CInt z) eq_refl). eexists; reflexivity.
   - apply orb_true_iff in H. destruct H as [H|H]; destruct c; try discriminate H.
     + rewrite (tok_of_const_leaf (CInt z) eq_refl). eexists; reflexivity.
@@ -127,15 +127,190 @@ Proof.
   - intros x IH V A. cbn [vexpr aprint] in V, A. apply andb_true_iff in V. destruct V as [Vx Lx].
     destruct (IH Vx A) as [u U]. pose proof (level_of_good x u U A) as Lu.
     destruct u as [c|o].
-    + cbn [unv]. rewrite U. eexists; reflexivity.
+    + cbn [PatternSyntax.unv]. rewrite U. eexists; reflexivity.
     + rewrite <- Lu, uobs_level in Lx. discriminate Lx.
   - apply unv_cpd_total.
-  - intros x IH V A. cbn [vexpr aprint] in V, A. destruct (IH V A) as [[c|o] U]; cbn [unv]; rewrite U; eexists; reflexivity.
+  - intros x IH V A. cbn [vexpr aprint] in V, A. destruct (IH V A) as [[c|o] U]; cbn [PatternSyntax.unv]; rewrite U; eexists; reflexivity.
   - intros x q IH V A. cbn [vexpr aprint] in V, A.
     apply andb_true_iff in V, A. destruct V as [Vx Lx]. destruct A as [Ax Aq].
     destruct (IH Vx Ax) as [u U]. pose proof (level_of_good x u U Ax) as Lu. apply level_eqb_eq in Lx. rewrite Lx in Lu.
     destruct u as [[p|a|o]|[o|o|o|o]]; try discriminate Lu.
-    destruct (unv_qual_total q Aq) as [q' Q]. cbn [unv]. rewrite U, Q. cbn [as_obs lift_obs]. eexists; reflexivity.
+    destruct (unv_qual_total q Aq) as [q' Q]. cbn [PatternSyntax.unv]. rewrite U, Q. cbn [as_obs lift_obs]. eexists; reflexivity.
+Qed.
+
+(* ------------------------------------------------------------------ *)
+(** * unvisit is defined on every well grouped printable object *)
+
+Definition WTotal (a : aexpr) : Prop := well_grouped a = true -> aprint a = true -> exists u, unv a = Some u.
+
+Lemma wg_cmp_total : forall cls lhs rhs neg, WTotal (ECmp cls lhs rhs neg).
+Proof.
+  intros cls lhs rhs neg _ A. cbn [aprint] in A.
+  apply andb_true_iff in A. destruct A as [Ap Ar].
+  destruct (unv_path_ok lhs Ap) as [op [Eo _]].
+  cbn [PatternSyntax.unv]. unfold PatternSyntax.unv_cmp. rewrite Eo.
+  destruct cls; destruct rhs as [v q|t|z|f|b|v|v|l]; cbn [rhs_ok] in Ar; try discriminate Ar;
+    try (cbn [const_ok andb] in Ar; discriminate Ar);
+    try (rewrite (toks_of_consts_ok l Ar); eexists; reflexivity).
+  all: match goal with |- context [tok_of_const ?c] =>
+         assert (Ho : const_ok c = true) by (first [exact Ar | apply andb_true_iff in Ar; tauto]);
+         rewrite (tok_of_const_leaf c Ho); eexists; reflexivity end.
+Qed.
+
+Lemma wtotal_level : forall x, WTotal x -> well_grouped x = true -> aprint x = true ->
+  exists u, unv x = Some u /\ u_level u = level x.
+Proof. intros x T W A. destruct (T W A) as [u U]. exists u. split; [exact U|apply (level_of_good x u U A)]. Qed.
+
+Lemma wchain_and_total : forall xs acc, Forall WTotal xs ->
+  forallb well_grouped xs = true -> forallb aprint xs = true -> forallb (fun x => rest_level_ok true (level x)) xs = true ->
+  exists r, chain_and acc (map (fun x => as_cmp (unv x)) xs) = Some r.
+Proof.
+  induction xs as [|x xs IH]; intros acc HF V A L; [eexists; reflexivity|].
+  inversion HF as [|? ? Hx HF']; subst. cbn [forallb] in V, A, L.
+  apply andb_true_iff in V, A, L. destruct V as [Vx Vxs]. destruct A as [Ax Axs]. destruct L as [Lx Lxs].
+  destruct (wtotal_level x Hx Vx Ax) as [u [U Lu]]. rewrite <- Lu in Lx.
+  destruct u as [[p|a|o]|[o|o|o|o]]; try discriminate Lx.
+  cbn [map chain_and]. rewrite U. cbn [as_cmp lift_pt]. apply IH; assumption.
+Qed.
+
+Lemma wchain_or_total : forall xs acc, Forall WTotal xs ->
+  forallb well_grouped xs = true -> forallb aprint xs = true -> forallb (fun x => rest_level_ok false (level x)) xs = true ->
+  exists r, chain_or acc (map (fun x => as_cmp (unv x)) xs) = Some r.
+Proof.
+  induction xs as [|x xs IH]; intros acc HF V A L; [eexists; reflexivity|].
+  inversion HF as [|? ? Hx HF']; subst. cbn [forallb] in V, A, L.
+  apply andb_true_iff in V, A, L. destruct V as [Vx Vxs]. destruct A as [Ax Axs]. destruct L as [Lx Lxs].
+  destruct (wtotal_level x Hx Vx Ax) as [u [U Lu]]. rewrite <- Lu in Lx.
+  destruct u as [[p|a|o]|[o|o|o|o]]; try discriminate Lx;
+    cbn [map chain_or]; rewrite U; cbn [as_cmp lift_and]; apply IH; assumption.
+Qed.
+
+Lemma wchain_oand_total : forall xs acc, Forall WTotal xs ->
+  forallb well_grouped xs = true -> forallb aprint xs = true -> forallb (fun x => right_level_ok OpAnd (level x)) xs = true ->
+  exists r, chain_oand acc (map (fun x => as_obs (unv x)) xs) = Some r.
+Proof.
+  induction xs as [|x xs IH]; intros acc HF V A L; [eexists; reflexivity|].
+  inversion HF as [|? ? Hx HF']; subst. cbn [forallb] in V, A, L.
+  apply andb_true_iff in V, A, L. destruct V as [Vx Vxs]. destruct A as [Ax Axs]. destruct L as [Lx Lxs].
+  destruct (wtotal_level x Hx Vx Ax) as [u [U Lu]]. rewrite <- Lu in Lx.
+  destruct u as [[p|a|o]|[o|o|o|o]]; try discriminate Lx;
+    cbn [map chain_oand]; rewrite U; cbn [as_obs lift_obs]; apply IH; assumption.
+Qed.
+
+Lemma wchain_oor_total : forall xs acc, Forall WTotal xs ->
+  forallb well_grouped xs = true -> forallb aprint xs = true -> forallb (fun x => right_level_ok OpOr (level x)) xs = true ->
+  exists r, chain_oor acc (map (fun x => as_obs (unv x)) xs) = Some r.
+Proof.
+  induction xs as [|x xs IH]; intros acc HF V A L; [eexists; reflexivity|].
+  inversion HF as [|? ? Hx HF']; subst. cbn [forallb] in V, A, L.
+  apply andb_true_iff in V, A, L. destruct V as [Vx Vxs]. destruct A as [Ax Axs]. destruct L as [Lx Lxs].
+  destruct (wtotal_level x Hx Vx Ax) as [u [U Lu]]. rewrite <- Lu in Lx.
+  destruct u as [[p|a|o]|[o|o|o|o]]; try discriminate Lx;
+    cbn [map chain_oor]; rewrite U; cbn [as_obs lift_oand]; apply IH; assumption.
+Qed.
+
+Lemma wchain_fb_total : forall xs acc, Forall WTotal xs ->
+  forallb well_grouped xs = true -> forallb aprint xs = true -> forallb (fun x => right_level_ok OpFb (level x)) xs = true ->
+  exists r, chain_fb acc (map (fun x => as_obs (unv x)) xs) = Some r.
+Proof.
+  induction xs as [|x xs IH]; intros acc HF V A L; [eexists; reflexivity|].
+  inversion HF as [|? ? Hx HF']; subst. cbn [forallb] in V, A, L.
+  apply andb_true_iff in V, A, L. destruct V as [Vx Vxs]. destruct A as [Ax Axs]. destruct L as [Lx Lxs].
+  destruct (wtotal_level x Hx Vx Ax) as [u [U Lu]]. rewrite <- Lu in Lx.
+  destruct u as [[p|a|o]|[o|o|o|o]]; try discriminate Lx;
+    cbn [map chain_fb]; rewrite U; cbn [as_obs lift_oor]; apply IH; assumption.
+Qed.
+
+Lemma wg_bool_total : forall isand ops, Forall WTotal ops -> WTotal (EBool isand ops).
+Proof.
+  intros isand ops HF V A. cbn [well_grouped aprint] in V, A.
+  apply andb_true_iff in V. destruct V as [Vx V2].
+  destruct ops as [|x1 [|x2 xs]]; try discriminate V2.
+  inversion HF as [|? ? H1 HF2]; subst.
+  apply andb_true_iff in V2. destruct V2 as [L1 Ls].
+  cbn [forallb] in Vx, A. apply andb_true_iff in Vx. destruct Vx as [V1 Vxs]. apply andb_true_iff in A. destruct A as [A1 As].
+  destruct (wtotal_level x1 H1 V1 A1) as [u1 [U1 Lu1]]. rewrite <- Lu1 in L1.
+  cbn [PatternSyntax.unv]. change (map (fun x => as_cmp (unv x)) (x1 :: x2 :: xs))
+    with (as_cmp (unv x1) :: map (fun x => as_cmp (unv x)) (x2 :: xs)). rewrite U1.
+  destruct isand.
+  - destruct (wchain_and_total (x2 :: xs)) with (acc := match u1 with UCmp (AC_pt p) => CAndBase p | UCmp (AC_and a) => a | _ => CAndBase (PTParen (COrBase (CAndBase (PTExists false (ObjPath t_EOF t_EOF None))))) end) as [r C]; try assumption.
+    destruct u1 as [[p|a|o]|[o|o|o|o]]; try discriminate L1; cbn [as_cmp lift_and];
+      (destruct (map (fun x => as_cmp (unv x)) (x2 :: xs)) as [|c2 rest] eqn:Em; [discriminate Em|]); rewrite C; eexists; reflexivity.
+  - destruct u1 as [c1|o1]; [|destruct o1; discriminate L1].
+    destruct (wchain_or_total (x2 :: xs) (lift_or c1) HF2 Vxs As Ls) as [r C]. cbn [as_cmp].
+    destruct (map (fun x => as_cmp (unv x)) (x2 :: xs)) as [|c2 rest] eqn:Em; [discriminate Em|]. rewrite C. eexists; reflexivity.
+Qed.
+
+Lemma wg_cpd_total : forall op ops, Forall WTotal ops -> WTotal (ECompound op ops).
+Proof.
+  intros op ops HF V A. cbn [well_grouped aprint] in V, A.
+  apply andb_true_iff in V. destruct V as [Vx V2].
+  destruct ops as [|x1 [|x2 xs]]; try discriminate V2.
+  inversion HF as [|? ? H1 HF2]; subst.
+  apply andb_true_iff in V2. destruct V2 as [L1 Ls].
+  cbn [forallb] in Vx, A. apply andb_true_iff in Vx. destruct Vx as [V1 Vxs]. apply andb_true_iff in A. destruct A as [A1 As].
+  destruct (wtotal_level x1 H1 V1 A1) as [u1 [U1 Lu1]]. rewrite <- Lu1 in L1.
+  cbn [PatternSyntax.unv]. change (map (fun x => as_obs (unv x)) (x1 :: x2 :: xs))
+    with (as_obs (unv x1) :: map (fun x => as_obs (unv x)) (x2 :: xs)). rewrite U1.
+  destruct u1 as [c1|o1]; [destruct op; destruct c1; discriminate L1|]. cbn [as_obs].
+  destruct (map (fun x => as_obs (unv x)) (x2 :: xs)) as [|c2 rest] eqn:Em; [discriminate Em|].
+  destruct op.
+  - destruct o1 as [o|o|o|o]; try discriminate L1; cbn [lift_oand];
+      [destruct (wchain_oand_total (x2 :: xs) (OAndBase o) HF2 Vxs As Ls) as [r C]
+      |destruct (wchain_oand_total (x2 :: xs) o HF2 Vxs As Ls) as [r C]]; rewrite Em in C; rewrite C; eexists; reflexivity.
+  - destruct o1 as [o|o|o|o]; try discriminate L1; cbn [lift_oor];
+      [destruct (wchain_oor_total (x2 :: xs) (OOrBase (OAndBase o)) HF2 Vxs As Ls) as [r C]
+      |destruct (wchain_oor_total (x2 :: xs) (OOrBase o) HF2 Vxs As Ls) as [r C]
+      |destruct (wchain_oor_total (x2 :: xs) o HF2 Vxs As Ls) as [r C]]; rewrite Em in C; rewrite C; eexists; reflexivity.
+  - destruct (wchain_fb_total (x2 :: xs) (lift_fb o1) HF2 Vxs As Ls) as [r C]. rewrite Em in C. rewrite C. eexists; reflexivity.
+Qed.
+
+Theorem wg_total : forall a, WTotal a.
+Proof.
+  apply aexpr_ind'.
+  - apply wg_cmp_total.
+  - apply wg_bool_total.
+  - intros x IH V A. cbn [well_grouped aprint] in V, A. apply andb_true_iff in V. destruct V as [Vx Lx].
+    destruct (wtotal_level x IH Vx A) as [u [U Lu]].
+    destruct u as [c|o].
+    + cbn [PatternSyntax.unv]. rewrite U. eexists; reflexivity.
+    + rewrite <- Lu, uobs_level in Lx. discriminate Lx.
+  - apply wg_cpd_total.
+  - intros x IH V A. cbn [well_grouped aprint] in V, A. destruct (IH V A) as [[c|o] U]; cbn [PatternSyntax.unv]; rewrite U; eexists; reflexivity.
+  - intros x q IH V A. cbn [well_grouped aprint] in V, A.
+    apply andb_true_iff in V, A. destruct V as [Vx Lx]. destruct A as [Ax Aq].
+    destruct (wtotal_level x IH Vx Ax) as [u [U Lu]]. apply level_eqb_eq in Lx. rewrite Lx in Lu.
+    destruct u as [[p|a|o]|[o|o|o|o]]; try discriminate Lu.
+    destruct (unv_qual_total q Aq) as [q' Q]. cbn [PatternSyntax.unv]. rewrite U, Q. cbn [as_obs lift_obs]. eexists; reflexivity.
+Qed.
+
+(* unvisit itself (top level: an observation-level object) *)
+Lemma unvisit_defined : forall a, well_grouped a = true -> obs_level a = true -> aprint a = true ->
+  exists c, unvisit a = Some c.
+Proof.
+  intros a W O A. destruct (wg_total a W A) as [u U]. pose proof (level_of_good a u U A) as Lu.
+  unfold obs_level in O. rewrite <- Lu in O. destruct u as [c|o]; [rewrite ucmp_level in O; discriminate O|].
+  exists (lift_fb o). unfold PatternSyntax.unvisit. rewrite U. reflexivity.
+Qed.
+
+(* the visitor's objects are constructible *)
+Lemma vexpr_constructible : forall a, vexpr a = true -> constructible a = true.
+Proof.
+  apply (aexpr_ind' (fun a => vexpr a = true -> constructible a = true)).
+  - intros; reflexivity.
+  - intros isand ops HF V. cbn [vexpr constructible] in *.
+    apply andb_true_iff in V. destruct V as [V Vrt]. apply andb_true_iff in V. destruct V as [Vx _].
+    assert (Cs : forallb constructible ops = true).
+    { clear Vrt. induction HF as [|x l Hx _ IH]; [reflexivity|]. cbn [forallb] in *. apply andb_true_iff in Vx. destruct Vx as [V1 V2].
+      rewrite (Hx V1), (IH V2). reflexivity. }
+    rewrite Cs. cbn [andb]. destruct isand; [|reflexivity]. destruct ops as [|x1 [|x2 rest]]; try discriminate Vrt. exact Vrt.
+  - intros x IH V. cbn [vexpr constructible] in *. apply andb_true_iff in V. destruct V as [V _]. exact (IH V).
+  - intros op ops HF V. cbn [vexpr constructible] in *. destruct ops as [|x [|y [|z r]]]; try discriminate V.
+    inversion HF as [|? ? Hx HF2]; subst. inversion HF2 as [|? ? Hy _]; subst.
+    apply andb_true_iff in V. destruct V as [V _]. apply andb_true_iff in V. destruct V as [V _]. apply andb_true_iff in V. destruct V as [Vx Vy].
+    cbn [forallb]. rewrite (Hx Vx), (Hy Vy). reflexivity.
+  - intros x IH V. cbn [vexpr constructible] in *. exact (IH V).
+  - intros x q IH V. cbn [vexpr constructible] in *. apply andb_true_iff in V. destruct V as [V _]. exact (IH V).
 Qed.
 
 (* ------------------------------------------------------------------ *)
@@ -143,47 +318,47 @@ Qed.
 
 Lemma unvisit_facts : forall a c, unvisit a = Some c -> aprint a = true ->
   wf c = true /\ yield c = print a /\ meaning_cst c = meaning_ast a /\
-  (vexpr a = true -> sem c = true /\ sv_fb c = a).
+  (constructible a = true -> sem c = true) /\ (vexpr a = true -> sv_fb c = a).
 Proof.
-  intros a c U A. unfold unvisit in U. destruct (unv a) as [[x|o]|] eqn:E; try discriminate U. inversion U; subst c; clear U.
-  destruct (unv_good a _ E A) as [G1 [G2 [G3 [G4 [_ G6]]]]]. cbn [u_wf u_yield u_meaning u_inv u_sem u_sv] in *.
+  intros a c U A. unfold PatternSyntax.unvisit in U. destruct (unv a) as [[x|o]|] eqn:E; try discriminate U. inversion U; subst c; clear U.
+  destruct (unv_good a _ E A) as [G1 [G2 [G3 [G4 [_ [_ [G7 G8]]]]]]]. cbn [u_wf u_yield u_meaning u_inv u_sem u_sv] in *.
   destruct (lift_fb_facts o G4) as [L1 [L2 [L3 [L4 L5]]]].
-  unfold wf, yield, print, meaning_cst, meaning_ast, sem. rewrite L1, L2, L3, G1, G2, G3. repeat split; try reflexivity.
-  - destruct (G6 H) as [S _]. rewrite L5. exact S.
-  - destruct (G6 H) as [_ [S _]]. rewrite L4. exact S.
+  unfold wf, yield, PatternSyntax.print, meaning_cst, PatternSyntax.meaning_ast, sem. rewrite L1, L2, L3, L4, L5, G1, G2, G3.
+  repeat split; assumption.
 Qed.
 
 (* printing is a fixed point of parse-then-print: the printed tokens of the
    object the visitor yields are the yield of a parse tree which the visitor
    maps back to the same object *)
 Theorem print_fixpoint_lemma : forall (c : pattern) (a : aexpr),
-  wf c = true -> sem c = true -> printable c = true -> visit repaired c = Ok a ->
+  wf c = true -> sem c = true -> visit repaired c = Ok a ->
   exists c', unvisit a = Some c' /\ wf c' = true /\ yield c' = print a /\ visit repaired c' = Ok a.
 Proof.
-  intros c a Hw Hs Hp Hv. rewrite (visit_sv c Hw Hs) in Hv. inversion Hv; subst a; clear Hv.
-  destruct (visitor_range c Hw Hs Hp) as [A V].
+  intros c a Hw Hs Hv. rewrite (visit_sv c Hw Hs) in Hv. inversion Hv; subst a; clear Hv.
+  destruct (visitor_range c Hw Hs) as [A V].
   destruct (unv_total (sv_fb c) V A) as [u U].
   pose proof (level_of_good _ u U A) as Lu.
   assert (Ob : exists o, u = UObs o).
-  { destruct (proj2 (proj2 (proj2 range_obs)) c Hw Hs Hp) as [_ [_ L]]. rewrite <- Lu in L.
+  { destruct (proj2 (proj2 (proj2 range_obs)) c Hw Hs) as [_ [_ L]]. rewrite <- Lu in L.
     destruct u as [[p|x|x]|o]; try discriminate L. exists o. reflexivity. }
   destruct Ob as [o Eo]. subst u.
-  assert (Uv : unvisit (sv_fb c) = Some (lift_fb o)) by (unfold unvisit; rewrite U; reflexivity).
-  destruct (unvisit_facts _ _ Uv A) as [W [Y [_ B]]]. destruct (B V) as [S Sv].
+  assert (Uv : unvisit (sv_fb c) = Some (lift_fb o)) by (unfold PatternSyntax.unvisit; rewrite U; reflexivity).
+  destruct (unvisit_facts _ _ Uv A) as [W [Y [_ [S Sv]]]].
   exists (lift_fb o). split; [exact Uv|]. split; [exact W|]. split; [exact Y|].
-  rewrite (visit_sv _ W S), Sv. reflexivity.
+  rewrite (visit_sv _ W (S (vexpr_constructible _ V))), (Sv V). reflexivity.
 Qed.
 
-(* objects assembled from the public classes: whenever the object has a
-   parse tree at all (grouping expressed by parenthetical nodes), that tree is
-   well formed, yields exactly the printed tokens, and -- on the trees the
-   visitor handles -- is visited to an object with the same meaning *)
-Theorem programmatic_roundtrip_lemma : forall (a : aexpr) (c : pattern),
-  aprint a = true -> unvisit a = Some c -> sem c = true ->
-  wf c = true /\ yield c = print a /\
+(* objects assembled from the public classes, with a parenthetical node
+   wherever precedence requires one: the printed tokens are the yield of a
+   well-formed parse tree which the visitor reads back to an object with the
+   same meaning *)
+Theorem programmatic_roundtrip_lemma : forall a : aexpr,
+  aprint a = true -> well_grouped a = true -> obs_level a = true -> constructible a = true ->
+  exists c, unvisit a = Some c /\ wf c = true /\ yield c = print a /\
   exists a', visit repaired c = Ok a' /\ meaning_ast a' = meaning_ast a.
 Proof.
-  intros a c A U S. destruct (unvisit_facts a c U A) as [W [Y [M _]]].
-  split; [exact W|]. split; [exact Y|].
-  destruct (visit_preserves_lemma c W S) as [a' [V Ma]]. exists a'. split; [exact V|]. rewrite Ma. exact M.
+  intros a A W O C. destruct (unvisit_defined a W O A) as [c U]. exists c.
+  destruct (unvisit_facts a c U A) as [Wf [Y [M [S _]]]].
+  split; [exact U|]. split; [exact Wf|]. split; [exact Y|].
+  destruct (visit_preserves_lemma c Wf (S C)) as [a' [V Ma]]. exists a'. split; [exact V|]. rewrite Ma. exact M.
 Qed.
